@@ -234,13 +234,15 @@ def run(ctx, R):
         try:
             for dp in def_paths:
                 for up in use_paths:
-                    for rel in ("before", "same", "after"):
+                    for rel, pre_used in [(r_, p_) for r_ in ("before", "same", "after") for p_ in (False, True)]:
+                        # pre_used: the same tag was already referenced elsewhere in the query (e.g. from a sibling fold);
+                        # the decision and the import bookkeeping must not depend on that history
                         use_vid = 10
                         dvid = {"before": 7, "same": 10, "after": 12}[rel]
                         field = A.Enum(IR + "FieldRef", "ContextField", [cf(dvid)])
                         entry = A.Struct(FE + "tags::TagEntry", {"name": "t", "field": field, "path": path(dp)})
                         stack = A.VecV([A.Tuple([r, A.VecV([])]) for r in up[1:]])
-                        th = A.Struct(FE + "tags::TagHandler", {"tags": S.MapV([("t", entry)]), "used_tags": S.SetV(),
+                        th = A.Struct(FE + "tags::TagHandler", {"tags": S.MapV([("t", entry)]), "used_tags": S.SetV(["t"] if pre_used else []),
                                                                 "component_imported_tags": stack})
                         ip = A.Interp(C, intrinsics=intr)
                         try:
@@ -261,9 +263,9 @@ def run(ctx, R):
                             want_imp[len(dp) - 1] = 1
                         n += 1
                         used = len(A.deref(th.fields["used_tags"]).d) == 1
-                        if (got != want or imported != want_imp or used != (want == "Ok")) and bad is None:
+                        if (got != want or imported != want_imp or used != (want == "Ok" or pre_used)) and bad is None:
                             bad = {"defined_in": dp, "used_in": up, "definition": rel + " use", "got": got, "want": want,
-                                   "imports": imported, "want_imports": want_imp}
+                                   "imports": imported, "want_imports": want_imp, "tag_already_used_elsewhere": pre_used}
             ip = A.Interp(C, intrinsics=intr)
             th = A.Struct(FE + "tags::TagHandler", {"tags": S.MapV(), "used_tags": S.SetV(), "component_imported_tags": A.VecV([])})
             res = A.deref(ip.call_fn(rt, [th, "nope", path((1,)), 3]))
